@@ -59,7 +59,7 @@ def peak_case(draw):
         shape[i] = max(4, shape[i] // 2)
     order = draw(st.sampled_from(["zxz", "zxz", "zzx"]))
     return {"kind": "peaks", "seed": draw(st.integers(0, 2**31 - 1)), "shape": shape, "bumps": draw(st.integers(0, 4)),
-            "n_angles": draw(st.integers(1, 200)), "thr_mode": draw(st.sampled_from(["value", "value", "sigma", "sigma", "zero"])),
+            "n_angles": draw(st.integers(1, 200)), "thr_mode": draw(st.sampled_from(["value", "value", "sigma", "sigma", "zero", "voxel"])),
             "top_fraction": draw(st.floats(0.002, 0.08, allow_nan=False)), "sigma": draw(st.floats(1.2, 3.0, allow_nan=False)),
             "diameter": draw(st.one_of(st.integers(1, 8).map(float), st.floats(1, 8, allow_nan=False))),
             "numbering": draw(st.integers(0, 1)), "order": order,
@@ -274,15 +274,22 @@ def run_peaks(case, out):
         scores = scores - float(np.quantile(scores, 1 - case["top_fraction"]))
         thr = 0.0
         kw = {"scores_threshold": 0.0}
+    elif case["thr_mode"] == "voxel":
+        # the threshold IS one voxel's score (an order statistic): that voxel does not exceed it and must not be extracted
+        thr = float(np.sort(scores, axis=None)[-max(2, int(case["top_fraction"] * nvox))])
+        kw = {"scores_threshold": thr}
     elif case["thr_mode"] == "value":
         thr = float(np.quantile(scores, 1 - case["top_fraction"]))
         kw = {"scores_threshold": thr}
     else:
         thr = float(scores.mean() + case["sigma"] * scores.std(ddof=1))
         kw = {"sigma_threshold": case["sigma"]}
-    if np.any(np.abs(scores - thr) <= 1e-12 * max(1.0, abs(thr))):
+    exact = case["thr_mode"] == "voxel" and case.get("scores_as", "array") == "array"  # comparison of identical doubles: decidable
+    if not exact and np.any(np.abs(scores - thr) <= 1e-12 * max(1.0, abs(thr))):
         out.filtered = "threshold_tie"
         return
+    if exact:
+        out.label("threshold_equals_a_voxel_score")
     sup = np.argwhere(scores > thr)
     if len(sup) > 6000:
         out.filtered = "too_many_supra_threshold_voxels"
